@@ -16,7 +16,7 @@ MIN_VARIANTS = 2
 ALIGNED_STEPS = True
 ROOT_IS_ENV = True  # cwd and --root are part of the environment here, the shrinker may reset them
 TIERS = {
-    "quick": {"cases": 150, "budget_s": 75, "batch": 32, "variants": 5},
+    "quick": {"cases": 170, "budget_s": 150, "batch": 32, "variants": 5},
     "thorough": {"cases": 4000, "budget_s": 900, "batch": 48, "variants": 8},
 }
 RULE = (
@@ -281,6 +281,20 @@ def gen_case(seed, tier, index=0):
         cand = [f["path"] for f in world["files"] if not f["path"].startswith((".reuse/", ".git"))]
         lf_files = rng.sample(cand, min(len(cand), rng.randint(1, 4)))
         cmds.append(["lint-file", "--lines"])
+    gflags = []
+    if rng.chance(0.15):
+        # a Meson subproject that brings its own REUSE.toml, and the option that makes it part of the project - the same in
+        # every environment, workers included
+        have = {f["path"] for f in world["files"]}
+        for nm, content in (("subprojects/libfoo/REUSE.toml", 'version = 1\n[[annotations]]\npath = "**"\nprecedence = "closest"\n'
+                                                               'SPDX-FileCopyrightText = "2016 Foo Authors"\nSPDX-License-Identifier = "0BSD"\n'),
+                            ("subprojects/libfoo/foo.c", "int foo;\n"), ("subprojects/libfoo/inc/foo.h", "int foo;\n"),
+                            ("subprojects/libbar/bar.c", "int bar;\n")):
+            if nm not in have:
+                world["files"].append({"path": nm, "content": content})
+        gflags = ["--include-meson-subprojects"]
+    elif world.get("git") and any(f["path"] == ".gitmodules" for f in world["files"]) and rng.chance(0.5):
+        gflags = ["--include-submodules"]
     nvar = TIERS[tier]["variants"]
     hs = rng.sample(range(8), min(8, max(3, nvar)))
     variants = []
@@ -305,7 +319,7 @@ def gen_case(seed, tier, index=0):
                 pool["chunk"] = rng.randint(1, 6)
         steps = []
         for c in cmds:
-            argv = (["--debug"] if dbg else []) + (["--no-multiprocessing"] if serial else []) + (["--root", spelling] if spelling is not None else []) + list(c)
+            argv = (["--debug"] if dbg else []) + gflags + (["--no-multiprocessing"] if serial else []) + (["--root", spelling] if spelling is not None else []) + list(c)
             if c[0] == "lint-file":
                 # the same files, spelled relative to this variant's cwd (or absolutely)
                 cwd_abs = posixpath.normpath(posixpath.join("/B/" + rn, cwd))
@@ -482,7 +496,7 @@ def _cmd_of(argv):
     out = []
     i = 0
     while i < len(argv):
-        if argv[i] in ("--no-multiprocessing", "--debug"):
+        if argv[i] in ("--no-multiprocessing", "--debug", "--include-meson-subprojects", "--include-submodules"):
             i += 1
         elif argv[i] == "--root":
             i += 2
